@@ -4,8 +4,10 @@ EXTENDS Threadsafe
 
 CONSTANTS Works, FaultChoices(_)
 
-T(out, gt, xt) == [kind |-> "test", out |-> out, gt |-> gt, xt |-> xt]
-R(kind) == [kind |-> kind, out |-> None, gt |-> NoTags, xt |-> NoTags]
+T(out, gt, xt) == [kind |-> "test", out |-> out, gt |-> gt, xt |-> xt, st |-> 0, en |-> 0]
+R(kind) == [kind |-> kind, out |-> None, gt |-> NoTags, xt |-> NoTags, st |-> 0, en |-> 0]
+\* a test with explicit times from a tiny alphabet
+Tm(s, e) == [kind |-> "test", out |-> "addSuccess", gt |-> NoTags, xt |-> NoTags, st |-> s, en |-> e]
 Add(x) == [n |-> {x}, g |-> {}]
 Del(x) == [n |-> {}, g |-> {x}]
 
@@ -25,6 +27,10 @@ WorksR == [1..2 -> SeqsUpTo({Tagged, Ungl, TestTg, R("startTestRun")}, 2)]
 \* the deviation of the code as it is (Variant = asCoded must violate BlockShape here): a tagged test whose block
 \* faults, followed by another tagged test of the same thread
 WorksC == { << <<TestTg, T("addSuccess", NoTags, Add("y"))>>, <<Plain>> >> }
+
+\* explicit times: back-to-back tests of a thread whose start time equals the previous end time (and equal start /
+\* end), interleaved with another thread's blocks
+WorksT == [1..2 -> SeqsUpTo({Tm(5, 7), Tm(7, 7), Tm(7, 9)}, 2)]
 
 \* thorough: 3 threads x 3 items, 4 threads x 1 item, 2 threads x 3 items, every run-level kind
 W33a == << <<Tagged, Plain, R("stop")>>, <<Plain, Ungl, TestTg>>, <<R("startTestRun"), Tagged, Plain>> >>
